@@ -22,11 +22,17 @@ func (s *p1stats) verdict(k string) {
 	atomic.AddInt64(v.(*int64), 1)
 }
 
+// panicKey: the code under test at `site` panicked while judging a commit; the reference always has a verdict.
+func panicKey(site string) string { return site + ":panic-instead-of-verdict" }
+
 func errClass(err error) string {
 	if err == nil {
 		return "accept"
 	}
 	m := err.Error()
+	if len(m) >= 6 && m[:6] == "panic:" {
+		return "panic"
+	}
 	for _, k := range []string{"wrong set size", "wrong height", "wrong round", "not precommit", "invalid signature", "insufficient voting power",
 		"Commit cannot be for nil block", "Invalid commit vote", "Invalid commit precommit height", "Invalid commit precommit round", "Wrong Block.Header.LastCommitHash"} {
 		if len(m) >= len(k) && contains(m, k) {
@@ -111,11 +117,11 @@ func runVerifyCommit(rp *reporter, st *p1stats, w *world, nv int, claimedIDs []i
 					commit := &types.Commit{BlockID: blockIDs[field], Precommits: pre}
 					var err error
 					if p, pv := vk.Catch(func() { err = vs.VerifyCommit(chainID, blockIDs[claimed], H, commit) }); p {
-						// a panic is not an acceptance; counted and reported in the evidence, the property is silent on it
+						// a panic of the code under test is an observation, not a harness fault: the commit gets neither of the
+						// two verdicts the reference allows (and the node that verifies it dies)
 						err = fmt.Errorf("panic: %v", pv)
-						if atomic.AddInt64(&st.panics, 1) <= 3 {
-							r.Note("VerifyCommit panicked: %v on %v", pv, describe(w, tab, asg, claimed))
-						}
+						atomic.AddInt64(&st.panics, 1)
+						r.Violation(panicKey("verifycommit"), fmt.Sprintf("VerifyCommit panics (%v) instead of accepting or rejecting a commit for %s", pv, idName[claimed]), describe(w, tab, asg, claimed))
 					}
 					ref := w.refCommit(slots, claimed, H, 0, relax{})
 					atomic.AddInt64(&st.cases, 1)
@@ -136,7 +142,7 @@ func runVerifyCommit(rp *reporter, st *p1stats, w *world, nv int, claimedIDs []i
 								fmt.Sprintf("VerifyCommit accepts a commit for %s at height %d although correctly signed precommits for exactly that id in one round do not exceed 2/3 of the power", idName[claimed], H),
 								describe(w, tab, asg, claimed))
 						}
-					} else if clean && ref {
+					} else if clean && ref && errClass(err) != "panic" {
 						r.Violation("verifycommit:rejects-valid-commit",
 							fmt.Sprintf("VerifyCommit rejects (%v) a commit whose present slots are all correctly signed precommits of one round and whose votes for %s exceed 2/3", err, idName[claimed]),
 							describe(w, tab, asg, claimed))
@@ -177,9 +183,10 @@ func runWrongSize(rp *reporter, st *p1stats, w *world) {
 				var err error
 				if p, pv := vk.Catch(func() { err = vs.VerifyCommit(chainID, blockIDs[claimed], H, commit) }); p {
 					err = fmt.Errorf("panic: %v", pv)
-					if atomic.AddInt64(&st.panics, 1) <= 3 {
-						r.Note("VerifyCommit panicked on a %s commit: %v", shape, pv)
-					}
+					atomic.AddInt64(&st.panics, 1)
+					d := describe(w, tab, asg, claimed)
+					d["shape"] = shape
+					r.Violation(panicKey("verifycommit")+":wrong-slot-count", fmt.Sprintf("VerifyCommit panics (%v) on a commit with %s", pv, shape), d)
 				}
 				atomic.AddInt64(&st.cases, 1)
 				st.verdict(errClass(err))
